@@ -232,8 +232,8 @@ theorem Inv.wLinkT {s : State} (hI : Inv s) {h f v n ver : Nat} (hp : s.pc (.fr 
         grind [updA, upd, Pc.pend, Pc.locks]
   case placed => lk_auto
   case freshHolder => lk_auto
-  case scanL0 => lk_auto
-  case unlockL0 => lk_auto
+  case scanL0 => unfold ScanL0 at *; lk_auto
+  case unlockL0 => unfold ScanL0 UnlockL0 at *; lk_auto
   case oScanOk => lk_auto
   case oNoneOk => lk_auto
   case aUnlockOk =>
